@@ -550,7 +550,9 @@ func ruleR36(c *Ctx) {
 		}
 		return false
 	}
-	outcomes := func(tk *TreeKind, u *FuncUnit) bagT {
+	var outcomesRec func(tk *TreeKind, u *FuncUnit, depth int) bagT
+	outcomes := func(tk *TreeKind, u *FuncUnit) bagT { return outcomesRec(tk, u, 0) }
+	outcomesRec = func(tk *TreeKind, u *FuncUnit, depth int) bagT {
 		out := bagT{}
 		counted := countedBy(tk, u)
 		g := m.cfgOf(u)
@@ -623,6 +625,20 @@ func ruleR36(c *Ctx) {
 						name := m.calleeName(call)
 						if strings.HasSuffix(name, ".deleteChild") || strings.HasSuffix(name, ".addChild") {
 							ev = "call " + name[strings.LastIndex(name, ".")+1:]
+						} else if hu := m.calleeUnit(call); hu != nil && hu != u && hu.Body != nil && hu.Recv == tk.Name && depth < 2 {
+							// a step of the algorithm extracted into a method of the same tree: its
+							// outcomes happen under the conditions of the call as well
+							here := label(b)
+							for k, n := range outcomesRec(tk, hu, depth+1) {
+								i := strings.Index(k, " when ")
+								set := map[string]bool{}
+								for _, at := range strings.Split(here+" & "+k[i+6:], " & ") {
+									if at != "" {
+										set[at] = true
+									}
+								}
+								out[k[:i]+" when "+strings.Join(sortedKeys(set), " & ")] += n
+							}
 						}
 					}
 				}
